@@ -169,10 +169,16 @@ func execOp(line string) {
 		emit(line, safely(func() string { return implLifecheck(t) }))
 		restore()
 
+	case "hbcheck":
+		emit(line, safely(func() string { return implHbcheck(t) }))
+
+	case "srcheck":
+		emit(line, safely(func() string { return implSrcheck(t) }))
+
 	case "tnc":
 		emit(line, safely(func() string { return implTnc(t) }))
 
-	case "evcheck", "fancheck", "closecheck", "stallcheck", "hbcheck", "srcheck":
+	case "evcheck", "fancheck", "closecheck", "stallcheck", "racecheck":
 		// observation-carrying ops: the observation was made when the scenario ran; on replay the stored observation
 		// is re-judged by the model (the scenario itself is re-run by the generator, see DESIGN.md §5)
 		emit(line, "ok")
